@@ -12,11 +12,11 @@ A delivery records the payload (`oldValue`, `newValue`: the value stored under `
 
 Core Lean only.
 -/
-import DefconModel.GlyphOrder
+import DefconModel.GlyphOrderV1
 
 namespace DefconModel
 namespace OrderNotify
-open GlyphOrder
+open GlyphOrderV1
 
 structure OrdEv where
   old : Option (List Name)
